@@ -71,9 +71,9 @@ var pieceTable = []piece{
 	{name: "nl", val: "\n"},
 	// extended alphabet (random tier, fuzzing)
 	{name: "sq", val: `'`},
-	{name: "bs", val: `\`, src: `\\`, rawVal: `\`},             // ONE backslash: in a raw literal it is an ordinary character, also directly before the closing quote
+	{name: "bs", val: `\`, src: `\\`, rawVal: `\`},           // ONE backslash: in a raw literal it is an ordinary character, also directly before the closing quote
 	{name: "crlf", val: "\r\n", src: `\r\n`, rawVal: "\r\n"}, // CR LF: two characters of the value, in a raw literal two bytes of the source
-	{name: `\"`, val: `"`, src: `\"`, rawVal: `\"`}, // the documented escape written out, also inside '...'
+	{name: `\"`, val: `"`, src: `\"`, rawVal: `\"`},          // the documented escape written out, also inside '...'
 	{name: "ä", val: "ä"},
 	{name: `\u00e4`, val: "ä", src: `\u00e4`, rawVal: `\u00e4`},
 	{name: `\t`, val: "\t", src: `\t`, rawVal: `\t`},
